@@ -96,3 +96,4 @@ Example C14_kth_repair_sn_example :
   let m1 := [128; 96; 0; 8; 0; 0; 0; 2; 0; 0; 0; 9; 3] in
   map r_sn (emitted_of (run_batches2 (new_encoder 49 77) [([m0; m1], 2)])) = [1000; 1001].
 Proof. vm_compute. reflexivity. Qed.
+Print Assumptions C14_kth_repair_sn_example.
